@@ -215,6 +215,9 @@ static uint64_t run_model(struct model *m, uint64_t seed, bool leave_blocked)
     return m->acc;
 }
 
+static bool err_trial;
+static FILE *log_sink;
+
 static uint64_t rng_probe(uint64_t seed)
 {
     cmb_random_initialize(seed);
@@ -337,6 +340,14 @@ static void trial_func(void *vp)
     }
     if (idx >= 0 && idx < T) {
         __atomic_add_fetch(&done_count[idx], 1, __ATOMIC_SEQ_CST);
+    }
+    if (err_trial && !scheduled && idx >= 0 && idx < T && T > 1) {
+        /* free-running pass: every trial writes a line to the log when it is through, and the last element's trial
+         * gives up the documented way - cmb_logger_error ends its replication thread and nothing else */
+        if (idx == T - 1) {
+            cmb_logger_error(log_sink, "trial %d gives up", idx);
+        }
+        cmb_logger_warning(log_sink, "trial %d is through", idx);
     }
 }
 
@@ -508,6 +519,8 @@ static void ginit(void)
     vxs_real_create = __real_pthread_create;
     vxs_real_join = __real_pthread_join;
     cmb_logger_flags_off(0x7FFFFFFFu);
+    err_trial = vx_opt_int("errtrial", 0) != 0;
+    log_sink = fopen("/dev/null", "w");
 }
 
 int main(int argc, char **argv)
